@@ -276,6 +276,9 @@ func checkC07(cx *Ctx, r *Report) {
 	} else {
 		r.Fail("R-VFG", "ValidateRedirectSignature:octets", "", "anchor not found")
 	}
+	// --- a request is not refused over a Destination it does not name or that is the advertised one -----------------
+	cx.checkDestinationAccepts(r, "provider.verifyRequestDestinationOfAuthRequest")
+	cx.checkDestinationAccepts(r, "provider.verifyRequestDestinationOfAttrQuery")
 	// --- every advertised binding reaches its handler: no route matcher that excludes GET or POST ---------------------
 	cx.checkRouteMatchers(r)
 	// --- base64 text is decoded as received, with the standard encoding --------------------------------------------------
